@@ -42,6 +42,11 @@ def _round_and_clip(
 ) -> np.ndarray:
   """Round and clip the tensor to the given type, but don't cast it."""
   qmin, qmax = get_quantized_range(qtype)
+  if int(qmax) > 2 ** (qtype.num_bits - int(qtype.signed)) - 1:
+    # float(2**63 - 1) rounds up to 2**63, which overflows int64 when cast
+    # (a large positive value would become INT64_MIN). Saturate at the largest
+    # float below it instead.
+    qmax = float(np.nextafter(qmax, 0.0))
   if narrow:
     if qtype.signed:
       return np.clip(
